@@ -90,6 +90,17 @@ func (it *Interp) eval(v ssa.Value) AVal {
 		if al, ok := x.X.(*ssa.Alloc); ok && x.Op == token.MUL {
 			// local cell (defer-spilled result, captured variable): the value
 			// is the last store on the executed path before this load
+			for _, ref := range *al.Referrers() {
+				switch u := ref.(type) {
+				case *ssa.UnOp, *ssa.DebugRef:
+				case *ssa.Store:
+					if u.Addr != ssa.Value(al) {
+						return it.fail("local %s escapes", al.Comment)
+					}
+				default:
+					return it.fail("local %s is shared with a function literal or escapes", al.Comment)
+				}
+			}
 			pos := -1
 			for i := len(it.trace) - 1; i >= 0; i-- {
 				if it.trace[i] == x.Block() {
